@@ -4,15 +4,20 @@ CONSTANTS MidKinds, Pfxs
 VARIABLES levels
 DeclSets == { <<>>, << <<"p", "urn:a">> >>, << <<"p", "urn:b">> >>, << <<"", "urn:a">> >>, << <<"", "">> >>,
               << <<"p", "urn:a">>, <<"", "urn:b">> >> }
-Init == levels \in { << [kind |-> "element", decls |-> d1], [kind |-> mk, decls |-> d2], [kind |-> "primitive", decls |-> d3] >> :
+\* (a union-typed middle has one more level: the declarations d3 sit on an element INSIDE the union, the leaf below it)
+Init == levels \in { IF mk = "union"
+                     THEN << [kind |-> "element", decls |-> d1], [kind |-> "union", decls |-> d2], [kind |-> "unionChild", decls |-> d3],
+                             [kind |-> "primitive", decls |-> <<>>] >>
+                     ELSE << [kind |-> "element", decls |-> d1], [kind |-> mk, decls |-> d2], [kind |-> "primitive", decls |-> d3] >> :
                        d1 \in DeclSets, d2 \in DeclSets, d3 \in DeclSets, mk \in MidKinds }
+Leaf == Len(levels)
 Next == UNCHANGED levels
 Spec == Init /\ [][Next]_levels
 \* C08/C09: the leaf's QName value resolves the same through both pumps, namely as XML Namespaces says
 PumpsAgree ==
   LET n == NativeMaps(levels, 1, <<>>, <<>>)  s == ScopeMaps(levels, 1, <<>>, <<>>)
-  IN levels[2].kind # "skip" => \A p \in Pfxs : Resolve(n[3], p) = Resolve(s[3], p)
+  IN levels[2].kind # "skip" => \A p \in Pfxs : Resolve(n[Leaf], p) = Resolve(s[Leaf], p)
 Emit == PrintT(<<"DOC", ToJson([levels |-> levels,
-                                 native |-> [p \in Pfxs |-> Resolve(NativeMaps(levels, 1, <<>>, <<>>)[3], p)],
-                                 scope  |-> [p \in Pfxs |-> Resolve(ScopeMaps(levels, 1, <<>>, <<>>)[3], p)]])>>)
+                                 native |-> [p \in Pfxs |-> Resolve(NativeMaps(levels, 1, <<>>, <<>>)[Leaf], p)],
+                                 scope  |-> [p \in Pfxs |-> Resolve(ScopeMaps(levels, 1, <<>>, <<>>)[Leaf], p)]])>>)
 =============================================================================
